@@ -9,7 +9,7 @@ SPEC = dict(
     rule="histories over {setSecurityPolicy, QXmppTrustManager::setTrustLevel (seed), public manual makeTrustDecisions(owner, authenticate-list, "
          "distrust-list), received trust message (sender account/resource/key, usage, key-owner list; built as QXmppMessage, serialised to XML, "
          "parsed back, sender key via QXmppE2eeMetadata) fed to QXmppAtmManager::handleMessage} on the real manager + QXmppAtmTrustMemoryStorage with an "
-         "own JID: 19 scripted corner sequences, then exhaustive to depth 3 (quick) / 4 (thorough) over a 24-symbol alphabet under both security "
+         "own JID: 22 scripted corner sequences, then exhaustive to depth 3 (quick) / 4 (thorough) over a 24-symbol alphabet under both security "
          "policies, then seeded random sequences of 4..30 operations over 3 accounts x 5 key ids (0 = empty id of an unencrypted message) x 2 "
          "encryption namespaces x 3 resources. After EVERY operation all stored trust levels and all held-back decisions of both namespaces are read "
          "back through the storage API, printed sorted together with the sequence of trustLevelsChanged emissions, and compared with the Lean model "
@@ -27,14 +27,17 @@ SPEC = dict(
         "the sender account is the bare JID of the server-stamped from attribute",
         "only the memory storage is modelled; a storage whose tasks finish asynchronously could interleave two handleMessage calls, which is outside the model",
         "trust messages SENT by the manual makeTrustDecisions are counted but not modelled (C18 is about received messages)",
-        "theorem trust_changes_only_if_authorized_unique_ids assumes every trust message respects one assignment of key ids to accounts; without it the "
-        "scope claim is false on today's code (theorem C18_defect_cross_owner_scope, finding C18:cross-owner-key-id)",
+        "held-back decisions are filed under the sender's key ID alone (the store keeps no sender account): 'that key later becomes authenticated' is "
+        "read as 'authenticate() runs on a batch that contains a key with that ID and has the decision in scope (an own key or a key of the "
+        "decision's owner in the batch)'; with a key ID used by two accounts a held decision can also be dropped unapplied (superseded by the same "
+        "verdict for the same key ID of another owner, discarded by a distrust of that ID for another account, overwritten by another account's "
+        "message with the same sender key ID) - counted in the statistics, never outside the sender's scope",
     ],
     level_text="Theorems for every state and history, arbitrary accounts/keys: self/non-ATM messages ignored; a level changes only if the sender key was "
-               "Authenticated; scope (own device: any account, contact: own keys) for all histories with unshared key ids, and in every state up to owners "
-               "with held-back entries; held back exactly in scope; fire only if / if (or superseded) the sender key id is authenticated, fired decisions take "
+               "Authenticated and only within scope (own device: any account, contact: own keys) - in every state and hence for all histories, cascades "
+               "of fired held-back decisions included; held back exactly in scope; fire only if / if (or superseded) the sender key id is authenticated, fired decisions take "
                "effect; distrust discards, for ever; TOAKAFA; termination of the authenticate/postponed recursion; encryption namespaces independent. "
-               "Negative theorem: the unrestricted scope claim fails (cross-owner key id). Model tied to the code by exhaustive+random correspondence.",
+               "Model (of the tree with the scope re-check of repo commit a532e12) tied to the code by exhaustive+random correspondence.",
     level_note="Proved about the hand-written model; model-to-code tie is differential (exhaustive to a depth, sampled beyond). Firing is keyed by sender key "
                "id only, as in the code and the XEP: 'that key becomes authenticated' is read as 'authenticate() runs on a key with that id'.",
     design_ref="5.18",
